@@ -580,6 +580,37 @@ def build_prot(c):
     return pkey, text, ("items", list(items.values()))
 
 
+def _latin1(x):
+    return all(0 < ord(ch) < 256 for ch in x)
+
+
+def gen_prot_components(rng, d, latin1=False, p_struct=0.12):
+    """before / header / lines / after (+ optional structural mutation) of one protocol text in dialect d"""
+    nl = rng.choice([0, 1, 2, 3, 4, 6, 8, 12])
+    p_bad = rng.choice([0, 0, 0, 0.1, 0.3])
+    lines = []
+    for _ in range(nl):
+        for _try in range(200):
+            lc = gen_line_case(rng, d, for_prot=True)
+            if latin1 and not _latin1(build_line(lc)[0]):
+                continue
+            bad = lc["kind"].startswith("malformed") or lc["kind"] in ("garbage", "fixed")
+            if bad == (rng.random() < p_bad):
+                break
+        lines.append(lc)
+    if lines and rng.random() < 0.4:      # force duplicate keys
+        keyed = [l for l in lines if "key" in l and l.get("mut") is None]
+        if len(keyed) >= 2:
+            a, b = rng.sample(keyed, 2)
+            b["key"] = a["key"]
+            if rng.random() < 0.5 and len(keyed) >= 3:
+                rng.choice(keyed)["key"] = a["key"]
+    st = None
+    if rng.random() < p_struct:
+        st = rng.choice(["no_begin", "no_end", "end_first", "no_last_nl", "no_markers"])
+    return {"before": rng.choice(BEFORE), "header": rng.choice(HEADERS), "lines": lines, "after": rng.choice(AFTER), "struct": st}
+
+
 class Prot:
     NAME = "prot"
     CORR_REQUIRE = "From DV Require Import Common.PyNum Phoenix.Model Phoenix.Corr."
@@ -599,31 +630,11 @@ class Prot:
         out = []
         for i in range(n):
             pkey = rng.choice(["MrPhoenixProtocol"] * 12 + ["MrProtocol"] * 12 + ["MrProt", "", "mrprotocol"])
-            d = D2 if pkey == "MrPhoenixProtocol" else D1
-            nl = rng.choice([0, 1, 2, 3, 4, 6, 8, 12])
-            p_bad = rng.choice([0, 0, 0, 0.1, 0.3])
-            lines = []
-            for _ in range(nl):
-                for _try in range(40):
-                    lc = gen_line_case(rng, d, for_prot=True)
-                    bad = lc["kind"].startswith("malformed") or lc["kind"] in ("garbage", "fixed")
-                    if bad == (rng.random() < p_bad):
-                        break
-                lines.append(lc)
-            if lines and rng.random() < 0.4:      # force duplicate keys
-                keyed = [l for l in lines if "key" in l and l.get("mut") is None]
-                if len(keyed) >= 2:
-                    a, b = rng.sample(keyed, 2)
-                    b["key"] = a["key"]
-                    if rng.random() < 0.5 and len(keyed) >= 3:
-                        rng.choice(keyed)["key"] = a["key"]
-            st = None
-            r = rng.random()
-            if r < 0.12:
-                st = rng.choice(["no_begin", "no_end", "end_first", "no_last_nl", "no_markers"])
-            kind = ("struct-" + st) if st else ("unknown-key" if pkey not in ("MrPhoenixProtocol", "MrProtocol") else pkey)
-            out.append({"kind": kind, "pkey": pkey, "before": rng.choice(BEFORE), "header": rng.choice(HEADERS), "lines": lines,
-                        "after": rng.choice(AFTER), "struct": st})
+            c = gen_prot_components(rng, D2 if pkey == "MrPhoenixProtocol" else D1)
+            st = c["struct"]
+            c["pkey"] = pkey
+            c["kind"] = ("struct-" + st) if st else ("unknown-key" if pkey not in ("MrPhoenixProtocol", "MrProtocol") else pkey)
+            out.append(c)
         return out
 
     @staticmethod
@@ -707,4 +718,304 @@ class Prot:
                 yield dict(case, lines=ls[:i] + [s] + ls[i + 1:])
 
 
-PARTS = [Lines, Prot]
+# ------------------------------------------------------------------------------------------------ CSA series header -> merged dict
+
+CSA_STR_VRS = ["LO", "SH", "CS", "UN", "ST", "LT", "UT"]
+CSA_INT_VRS = ["IS", "SL", "SS", "UL", "US"]
+CSA_FLT_VRS = ["DS", "FL", "FD"]
+CSA_NAMES = ["UsedPatientWeight", "NumberOfPrescans", "TransmitterCalibration", "PhaseGradientAmplitude", "MrEvaProtocol", "SequenceFileOwner",
+             "GradientMode", "FlowCompensation", "Isocentered", "CoilForGradient", "TablePositionOrigin", "MiscSequenceParam", "B1rms",
+             "RelTablePosition", "ReadoutOS", "tz", "MrProtocolVersion", "ZZ", "AAA", "MrPhoenixProtocolX", "Mr", "n\xe9", "a b", "MrProtocol2"]
+PHX, MRP = "MrPhoenixProtocol", "MrProtocol"
+
+
+def build_csa2(tags):
+    """hand-built Siemens CSA2 ('SV10') header: tags = [{name, vr, items: [latin-1 str], pad: n}]"""
+    import struct
+    out = b"SV10" + b"\x04\x03\x02\x01" + struct.pack("<2I", len(tags), 77)
+    for t in tags:
+        items = [x.encode("latin-1") + b"\x00" for x in t["items"]]
+        pad = t.get("pad", 0) if items else 0
+        out += struct.pack("<64si4s3i", t["name"].encode("latin-1"), len(items), t["vr"].encode("ascii"), 0, len(items) + pad, 77 if items else 205)
+        for it in items:
+            out += struct.pack("<4i", len(it), len(it), 77, len(it)) + it + b"\x00" * ((4 - len(it) % 4) % 4)
+        for _ in range(pad):
+            out += struct.pack("<4i", 0, 0, 77, 0)
+    return out
+
+
+def _csa_expected_item(vr, x):
+    if vr in CSA_INT_VRS:
+        return ("int", int(x))
+    if vr in CSA_FLT_VRS:
+        return ("float", float(x))
+    return ("str", x)
+
+
+def build_csa(c):
+    """components -> (tags incl. the protocol elements, expectation)
+    expectation: None | ("err",) | ("dict", [[key, 'one'|'list', payload], ...] in order, check_order)"""
+    tags = [dict(t) for t in c["tags"]]
+    which = c["which"]
+    texts = {}
+    exp_prot = None
+    chosen = PHX if which in ("phoenix", "both") else (MRP if which == "mr" else None)
+    if which in ("phoenix", "both"):
+        _, texts[PHX], e = build_prot(dict(c["prot"], pkey=PHX))
+        exp_prot = e
+    if which in ("mr", "both"):
+        _, texts[MRP], e = build_prot(dict(c["prot2" if which == "both" else "prot"], pkey=MRP))
+        if which == "mr":
+            exp_prot = e
+    for name, text in texts.items():
+        items = [text, text] if (c.get("list_prot") and name == chosen) else [text]
+        tags.append({"name": name, "vr": "UN", "items": items, "pad": c.get("prot_pad", 0)})
+    names = [t["name"] for t in tags]
+    ok_input = (len(set(names)) == len(names) and all(_latin1(t["name"]) and 0 < len(t["name"].encode("latin-1")) < 64 for t in tags)
+                and all(_latin1(x) or x == "" for t in tags for x in t["items"]) and len(tags) > 0)
+    if not ok_input:
+        return tags, None
+    if c.get("list_prot") and chosen:
+        return tags, None
+    if chosen and exp_prot is None:
+        return tags, None
+    if chosen and exp_prot[0] == "err":
+        return tags, ("err",)
+    want = []
+    for t in sorted(tags, key=lambda t: t["name"]):
+        if t["name"] == chosen or not t["items"]:
+            continue
+        try:
+            vals = [_csa_expected_item(t["vr"], x) for x in t["items"]]
+        except ValueError:
+            return tags, None
+        want.append([t["name"], "one", vals[0]] if len(vals) == 1 else [t["name"], "list", vals])
+    collide = False
+    if chosen:
+        have = set(w[0] for w in want)
+        for k, tag, val in exp_prot[1]:
+            nk = PHX + "." + k
+            if nk in have:
+                collide = True
+            want.append([nk, "one", (tag, val)])
+    if collide:
+        return tags, None
+    return tags, ("dict", want, True)
+
+
+def _gen_csa_tags(rng):
+    n = rng.choice([0, 1, 2, 3, 5, 8])
+    names = rng.sample(CSA_NAMES, n)
+    tags = []
+    for nm in names:
+        kind = rng.choice(["str", "str", "int", "float", "empty"])
+        k = rng.choice([1, 1, 1, 2, 3, 6])
+        if kind == "str":
+            vr = rng.choice(CSA_STR_VRS)
+            items = [rng.choice(["", "x", "Head_32", "1.5", "0x10", "a = \"b\" # c", "FAST", "h\xe9llo", " padded ", "-1"]) for _ in range(k)]
+        elif kind == "int":
+            vr = rng.choice(CSA_INT_VRS)
+            items = [str(rng.randrange(-2 ** 31, 2 ** 31)) for _ in range(k)]
+        elif kind == "float":
+            vr = rng.choice(CSA_FLT_VRS)
+            items = [repr(rng.choice([rng.uniform(-100, 100), float(rng.randrange(0, 500)), 0.1, 1e-5, 1e16])) for _ in range(k)]
+        else:
+            vr, items = rng.choice(CSA_STR_VRS + CSA_INT_VRS), []
+        tags.append({"name": nm, "vr": vr, "items": items, "pad": rng.choice([0, 0, 1, 5])})
+    return tags
+
+
+class Csa:
+    NAME = "csa"
+    CORR_REQUIRE = "From DV Require Import Common.PyNum Phoenix.Model Phoenix.Corr."
+    CORR_CASE_TYPE = "Corr.ccase"
+    CORR_CHECK = "Corr.ccheck"
+    CORR_SHOW = "Corr.cshow"
+    SHARD = 40
+    IMPL_TIMEOUT = 30
+    RULE = ("a hand-built Siemens CSA2 ('SV10') series header with 0-8 ordinary tags (string / integer / float VRs, 0-6 items) and the protocol text "
+            "stored under MrPhoenixProtocol only, MrProtocol only (single-quote dialect), both, or neither, run through the real "
+            "extract.csa_series_trans_func; one case in six goes through MetaExtractor() on a pydicom Dataset holding the header as (0029,1020) under the "
+            "'SIEMENS CSA HEADER' private creator. The model gets the simplified dict (nibabel csareader + simplify_csa_dict, both outside the model) "
+            "and must produce the same ordered dict or error. non-trivial = a protocol element with at least one assignment line")
+
+    @staticmethod
+    def gen_cases(rng, tier):
+        n = 240 if tier == "quick" else 3000
+        out = []
+        for i in range(n):
+            which = rng.choice(["phoenix"] * 4 + ["mr"] * 4 + ["both"] * 2 + ["none"])
+            via = "extractor" if rng.random() < 0.17 else "func"
+            c = {"which": which, "via": via, "tags": _gen_csa_tags(rng), "prot_pad": rng.choice([0, 0, 5])}
+            d = D2 if which in ("phoenix", "both") else D1
+            if which != "none":
+                c["prot"] = gen_prot_components(rng, d, latin1=True, p_struct=0.05)
+            if which == "both":
+                c["prot2"] = gen_prot_components(rng, D1, latin1=True, p_struct=0.0)
+            if which != "none" and rng.random() < 0.03:
+                c["list_prot"] = True
+            if which == "none" and not c["tags"]:
+                c["tags"] = [{"name": "tz", "vr": "LO", "items": ["x"], "pad": 0}]
+            if rng.random() < 0.04 and which != "none":     # an ordinary tag that collides with a merged key
+                c["tags"].append({"name": PHX + ".ulVersion", "vr": "IS", "items": ["3"], "pad": 0})
+            c["kind"] = "csa-%s%s" % (which, "-extractor" if via == "extractor" else "")
+            out.append(c)
+        return out
+
+    @staticmethod
+    def run_impl(case):
+        import warnings
+        from dcmstack import extract
+        tags, _ = build_csa(case)
+        raw = build_csa2(tags)
+        simp = extract.simplify_csa_dict(extract.csareader.read(raw))
+        obs = {"in": [[k, _obs_csa_val(v)] for k, v in simp.items()]}
+        if case["via"] == "func":
+            class Elem(object):
+                pass
+            elem = Elem()
+            elem.value = raw
+            try:
+                res = extract.csa_series_trans_func(elem)
+            except extract.PhoenixParseError:
+                obs["err"] = "EPhoenix"
+                return obs
+            except AttributeError as e:
+                if "has no attribute 'find'" in str(e):
+                    obs["err"] = "EAttr"
+                    return obs
+                raise
+            obs["items"] = [[k, _obs_csa_val(v)] for k, v in res.items()]
+            return obs
+        import pydicom
+        ds = pydicom.Dataset()
+        ds.add_new((0x0029, 0x0010), "LO", "SIEMENS CSA HEADER")
+        ds.add_new((0x0029, 0x1020), "OB", raw)
+        ds.add_new((0x0010, 0x0010), "PN", "Phantom^C16")
+        with warnings.catch_warnings(record=True) as w:
+            warnings.simplefilter("always")
+            meta = extract.MetaExtractor()(ds)
+        msgs = [str(x.message) for x in w if "Exception from translator" in str(x.message)]
+        items = [[k[len("CsaSeries."):], _obs_csa_val(v)] for k, v in meta.items() if k.startswith("CsaSeries.")]
+        if msgs and not items:
+            if "Unable to parse phoenix protocol line" in msgs[0]:
+                obs["err"] = "EPhoenix"
+            elif "has no attribute 'find'" in msgs[0]:
+                obs["err"] = "EAttr"
+            else:
+                obs["crash"] = "TranslatorException"
+                obs["msg"] = msgs[0][:300]
+            return obs
+        obs["items"] = items
+        obs["other_keys"] = sorted(k for k in meta if not k.startswith("CsaSeries."))
+        return obs
+
+    @staticmethod
+    def coq_case(case, obs):
+        def cval(v):
+            if v["t"] == "list":
+                pvs = [coq_pval(x) for x in v["items"]]
+                return None if any(p is None for p in pvs) else "(CItems %s)" % clist(pvs)
+            pv = coq_pval(v)
+            return None if pv is None else "(CItem %s)" % pv
+
+        def cdict(items):
+            out = []
+            for k, v in items:
+                cv = cval(v)
+                if cv is None or not isinstance(k, str):
+                    return None
+                out.append(cpair(cstr(k), cv))
+            return clist(out)
+        cin = cdict(obs.get("in", [])) if "in" in obs else None
+        if cin is None:
+            return "{| c_in := []; c_obs := CErr ECrash |}"
+        if "err" in obs:
+            o = "(CErr %s)" % obs["err"]
+        elif "crash" in obs:
+            o = "(CErr ECrash)"
+        else:
+            cd = cdict(obs["items"])
+            o = "(CErr ECrash)" if cd is None else "(CDict %s)" % cd
+        return "{| c_in := %s; c_obs := %s |}" % (cin, o)
+
+    @staticmethod
+    def oracle(case, obs):
+        try:
+            tags, exp = build_csa(case)
+        except Exception:
+            return None
+        where = "CSA series header (%s, via %s) with tags %s" % (case["which"], case["via"], _show([(t["name"], t["vr"], t["items"]) for t in tags]))
+        if "crash" in obs:
+            if obs["crash"] in ("HarnessFailure", "Timeout"):
+                return None
+            return "%s: crashed with %s %s" % (where, obs["crash"], obs.get("msg", "")[:200])
+        if exp is None:
+            return None
+        if exp[0] == "err":
+            return None if obs.get("err") == "EPhoenix" else "%s: the protocol has a malformed line but the result is %s" % (where, _show(obs.get("items")))
+        if "err" in obs:
+            how = "raised" if case["via"] == "func" else "was turned into a warning that dropped every CsaSeries key:"
+            return "%s: the protocol section is well formed but the translator %s %s" % (where, how, obs["err"])
+        got = obs["items"]
+        want = exp[1]
+        gk, wk = [g[0] for g in got], [w[0] for w in want]
+        if sorted(gk) != sorted(wk):
+            missing = [k for k in wk if k not in gk]
+            extra = [k for k in gk if k not in wk]
+            return "%s: keys missing %s, unexpected %s" % (where, _show(missing), _show(extra))
+        if gk != wk:
+            return "%s: key order %s, expected %s" % (where, _show(gk), _show(wk))
+        for g, w in zip(got, want):
+            v = g[1]
+            if w[1] == "one":
+                ok = v.get("t") != "list" and value_matches(v, w[2][0], w[2][1])
+            else:
+                ok = v.get("t") == "list" and len(v["items"]) == len(w[2]) and all(value_matches(x, y[0], y[1]) for x, y in zip(v["items"], w[2]))
+            if not ok:
+                return "%s: key %s should be %s, got %s" % (where, _show(w[0]), _show(w[2]), _show(v))
+        return None
+
+    @staticmethod
+    def signature(case, obs, msg):
+        return "phoenix-csa"
+
+    @staticmethod
+    def nontrivial(case, obs):
+        return case["which"] != "none" and any(l.get("mut") is None and "key" in l for l in case["prot"]["lines"])
+
+    @staticmethod
+    def shrink(case):
+        ts = case["tags"]
+        for i in range(len(ts)):
+            if len(ts) > 1 or case["which"] != "none":
+                yield dict(case, tags=ts[:i] + ts[i + 1:])
+        if case.get("prot_pad"):
+            yield dict(case, prot_pad=0)
+        for pk in ("prot", "prot2"):
+            if pk in case:
+                pr = case[pk]
+                ls = pr["lines"]
+                for i in range(len(ls)):
+                    yield dict(case, **{pk: dict(pr, lines=ls[:i] + ls[i + 1:])})
+                if pr["before"]:
+                    yield dict(case, **{pk: dict(pr, before="")})
+                if pr["after"]:
+                    yield dict(case, **{pk: dict(pr, after="")})
+                if pr["header"] != "###":
+                    yield dict(case, **{pk: dict(pr, header="###")})
+                for i, l in enumerate(ls):
+                    for j, sl in enumerate(shrink_line(l)):
+                        if j >= 5:
+                            break
+                        if _latin1(build_line(dict(sl, delim=D1))[0]):
+                            yield dict(case, **{pk: dict(pr, lines=ls[:i] + [sl] + ls[i + 1:])})
+
+
+def _obs_csa_val(v):
+    if isinstance(v, (list, tuple)):
+        return {"t": "list", "items": [observe_value(x) for x in v]}
+    return observe_value(v)
+
+
+PARTS = [Lines, Prot, Csa]
